@@ -53,7 +53,9 @@ OPS = [(0, 0, b"k", b"v", 0, False, None), (0, 0, b"k", b"v", 0, True, None), (0
        (0, 0, b"k", b"v", 0, None, None), (1, [(b"a", b"1"), (b"b", b"2")], 0, None, None), (9, b"k", None), (10, False, [b"a", b"b"], None),
        (13, b"k", 5, None), (14, 0, None),
        # raw_command reads up to a caller-chosen end token, however the reply is cut into recv() results
-       (16, b"version", b"\r\n"), (16, b"version", b".21\r\n"), (16, b"get k", b"END\r\n")]
+       (16, b"version", b"\r\n"), (16, b"version", b".21\r\n"), (16, b"get k", b"END\r\n"),
+       # two dict keys with ONE wire spelling (str and bytes): two commands go out, two replies come back
+       (1, [("k", b"1"), (b"k", b"2"), (b"c", b"3")], 0, False, None), (10, False, ["a", b"a", b"b"], False), (7, False, ["a", b"a", b"k"])]
 FOLLOW = [(3, b"k", b"dflt"), (9, b"j", False), (0, 0, b"j", b"z", 0, False, None), (11, b"n", 1, False)]
 PRE = [(0, 0, b"k", b"5", 0, False, None), (0, 0, b"n", b"10", 0, False, None), (0, 0, b"a", b"A", 0, False, None)]
 REPLY_FAULTS = ["error", "garbage", "truncate", "client_error", "line0_server_error", "line1_client_error"]
